@@ -7,7 +7,7 @@ from ..harness import Part
 from ..signatures import close
 
 PROPERTY_ID = "C04"
-RULE = ("Hypothesis build programs (<= 10 items per circuit, nesting <= 2, 4 qubits) over all duration-carrying "
+RULE = ("Hypothesis build programs (part programs: <= 10 items per circuit, nesting <= 2, 4 qubits; part dense_nesting: 3 qubits, <= 4 items per circuit, every second item a sub-circuit with count 1..3) over all duration-carrying "
         "operation kinds with fixed / registry / global durations from {0,.25,.5,1,1.5,2,3,7}, explicit relations of "
         "all three types on ~70 % of the items (references to earlier operations and sub-circuits), interpreted through "
         "DeclarativeCircuit.add under a generated global-duration override; up to two nested blocks per program are additionally "
@@ -34,7 +34,17 @@ def cfg():
                     global_zero=True, max_total_leaves=40)
 
 
-def strat():
+def cfg_dense():
+    """Few qubits, many small (repeated) sub-circuits inside sub-circuits, followers of whole blocks."""
+    return P.GenCfg(kinds=["Wait", "Wait", "Rx180", "CPhase", "Barrier", "DispersiveMeasure", "Reset", "VirtualPark"], nq=3,
+                    max_items=4, max_depth=2, p_sub=55, p_rel=50, max_reps=3, globals_=False, max_total_leaves=40)
+
+
+def strat_dense():
+    return strat(cfg_dense())
+
+
+def strat(config=None):
     from hypothesis import strategies as st
     pos = st.sampled_from([0.25, 0.5, 1.0, 1.5, 2.0, 3.0, 7.0])
     # "second": a second duration configuration for the same circuit objects after they were read once;
@@ -44,7 +54,7 @@ def strat():
         "dreg": st.fixed_dictionaries({"k0": st.sampled_from(P.DYADIC), "k1": st.sampled_from(P.DYADIC)})})
     # "peek": the unfinished circuit's duration and times are read before every add (a user looking while building)
     relink = st.lists(st.tuples(st.integers(0, 7), st.sampled_from("FS"), st.integers(0, 9)), max_size=2)
-    return st.tuples(P.program_strategy(cfg()), second, st.booleans(), relink).map(
+    return st.tuples(P.program_strategy(config or cfg()), second, st.booleans(), relink).map(
         lambda t: relink_blocks(dict(t[0], second=t[1], peek=t[2]), t[3]))
 
 
@@ -207,4 +217,5 @@ def check_circuit(ctx, circuit, ops, what, facts, n_subs):
 
 
 def parts():
-    return [Part("programs", body, strategy=strat, quick=2500, thorough=12000, fuzz_quick=0, fuzz_thorough=8000)]
+    return [Part("dense_nesting", body, strategy=strat_dense, quick=1200, thorough=5000),
+            Part("programs", body, strategy=strat, quick=2500, thorough=12000, fuzz_quick=0, fuzz_thorough=8000)]
